@@ -362,6 +362,9 @@ func (mw *msgWriter) addFiles(files []*File, isAttachment bool) {
 				disposition, mw.encoder.Encode(mw.charset.String(), sanitizeFilename(file.Name))))
 		}
 
+		if contentID, ok := file.getHeader(HeaderContentID); ok {
+			file.setHeader(HeaderContentID, mw.encoder.Encode(mw.charset.String(), contentID))
+		}
 		if !isAttachment {
 			if _, ok := file.getHeader(HeaderContentID); !ok {
 				file.setHeader(HeaderContentID, fmt.Sprintf("<%s>", sanitizeFilename(file.Name)))
@@ -434,7 +437,8 @@ func (mw *msgWriter) writePart(part *Part, charset Charset) {
 	if mw.depth > 0 {
 		mimeHeader := textproto.MIMEHeader{}
 		if part.description != "" {
-			mimeHeader.Add(string(HeaderContentDescription), part.description)
+			mimeHeader.Add(string(HeaderContentDescription),
+				mw.encoder.Encode(mw.charset.String(), part.description))
 		}
 		mimeHeader.Add(string(HeaderContentTransferEnc), contentTransferEnc)
 		mimeHeader.Add(string(HeaderContentType), contentType)
